@@ -857,6 +857,8 @@ def register(chk):
         c02_loops.register(chk)
     except ImportError:
         pass
+    import c02_more
+    c02_more.register(chk)
 
 
 def main(argv=None):
